@@ -335,17 +335,19 @@ impl_wide_float!(
     }
 );
 
+// `f32x4::recip` and `f32x8::recip` are the hardware's reciprocal *estimates*
+// (`rcpps`, about 12 bits) on x86, so the exact division is used instead.
 impl Recip for f32x4 {
     #[inline]
     fn recip(self) -> Self {
-        f32x4::recip(self)
+        f32x4::ONE / self
     }
 }
 
 impl Recip for f32x8 {
     #[inline]
     fn recip(self) -> Self {
-        f32x8::recip(self)
+        f32x8::ONE / self
     }
 }
 
